@@ -36,6 +36,7 @@ class Analyzer(Interp):
         self.watch_index = None        # predicate(buffer id): log every index into such a buffer with the state at that point
         self.index_log = []
         self.watch_access = None       # predicate(buffer id): log (offset, count) of every access to such a buffer
+        self.alloc_limit = None        # callable(analyzer, state) -> Lin: reserve/resize amounts must not exceed it (kind 'alloc')
         self.access_log = []
         self.wrap_fns = None           # predicate(function qname): unsigned + - * << in such functions must provably not wrap
         self.return_hook = None        # callable(analyzer, fn, return node, state, frame) before a return expression is evaluated
@@ -1215,6 +1216,20 @@ class Analyzer(Interp):
     def fact(self, st, f):
         st.facts = st.facts + (f,)
 
+    def alloc_check(self, fn, n, st, amount, what):
+        """When alloc_limit is set (callable(analyzer, state) -> Lin): a container is sized (reserve / resize) only to an
+        amount bounded by it — e.g. by the length of the input being decoded, so that a length word read from the input
+        cannot request memory the input does not back (std::bad_alloc / std::length_error)."""
+        if self.alloc_limit is None:
+            return
+        lim = self.alloc_limit(self, st)
+        if lim is None:
+            return
+        if isinstance(amount, Lin):
+            self.oblige('alloc', fn, n, st, [amount - lim], '%s(n): n is bounded by the input length' % what)
+        else:
+            self.oblige('alloc', fn, n, st, [None], '%s(n): untracked amount' % what)
+
     def log_call(self, fn, n, c, vals, st, recv=None):
         if self.recording and self.watch is not None and self.watch(c):
             self.calls.append({'fn': fn, 'node': n, 'callee': c, 'args': list(vals), 'state': st.copy(), 'recv': recv, 'stack': list(self.call_stack)})
@@ -1489,6 +1504,7 @@ class Analyzer(Interp):
                     s2.lens[nb] = nl
                     res = Obj(nb) if 'string_view' not in (t or '') else Span(nb, 0, nl)
                 elif m in ('resize',) and isinstance(ov, Obj) and vals and isinstance(vals[0], Lin):
+                    self.alloc_check(fn, n, s2, vals[0], m)
                     s2.lens[ov.buf] = vals[0]
                     res = UNK
                 elif m == 'clear' and isinstance(ov, Obj):
@@ -1525,6 +1541,8 @@ class Analyzer(Interp):
                     if m == 'append' and len(vals) == 2 and self.as_ptr(s2, vals[0]) is not None and isinstance(vals[1], Lin):
                         p_ = self.as_ptr(s2, vals[0])
                         self.access(fn, n, s2, p_.buf, p_.off, vals[1], 'append(ptr, n) source')
+                    if m == 'reserve' and vals:
+                        self.alloc_check(fn, n, s2, vals[0], m)
                     if isinstance(ov, Obj) and m not in ('reserve', 'fill', 'shrink_to_fit'):
                         s2.lens[ov.buf] = self.fresh_len(s2)
                     if isinstance(ov, Span) and key is not None and m in ('remove_prefix', 'remove_suffix'):
@@ -1552,7 +1570,22 @@ class Analyzer(Interp):
             return [(s, Lin.const(1)) for s in tr] + [(s, Lin.const(0)) for s in fa]
         if op == '[]' and len(operands) == 2:
             for s, (b, i) in self.evs(fn, operands, st, fr):
-                if cls in ('std::map', 'std::unordered_map') or isinstance(b, Unknown):
+                bt = (fn.nodes[fn.strip(operands[0])].get('t') or '')
+                mb = re.match(r'(?:const )?std::bitset<(\d+)>', bt)
+                if mb:
+                    # std::bitset<N>::operator[](pos): undefined behaviour unless pos < N
+                    if isinstance(i, Lin):
+                        self.oblige('bound', fn, n, s, [-i, i - (int(mb.group(1)) - 1)], 'bitset<%s> index' % mb.group(1))
+                    else:
+                        self.oblige('bound', fn, n, s, [None], 'bitset<%s> index (untracked)' % mb.group(1))
+                    out.append((s, self.fresh_for_type(s, 'bool', 'bit')))
+                    continue
+                if cls in ('std::map', 'std::unordered_map'):
+                    out.append((s, self.fresh_for_type(s, t, 'elem')))
+                    continue
+                if isinstance(b, Unknown):
+                    # a subscript on a container the analysis does not track cannot be shown in bounds
+                    self.oblige('bound', fn, n, s, [None], 'subscript on an untracked container (%s)' % (cls or bt)[:40])
                     out.append((s, self.fresh_for_type(s, t, 'elem')))
                     continue
                 vw = self.view_of(s, b)
@@ -1698,7 +1731,7 @@ def analyse(P, entries, inline=None, contracts=None, max_depth=None):
     return sites, info
 
 
-def report(ck, rule_prefix, sites, kinds=('bound', 'chrono', 'loop', 'range', 'wrap')):
+def report(ck, rule_prefix, sites, kinds=('bound', 'chrono', 'loop', 'range', 'wrap', 'alloc')):
     """Turn merged site verdicts into check obligations with keys stable under unrelated edits:
     <prefix>.<kind>/<function>/<label>#<ordinal in source order>."""
     from .prog import short
